@@ -5,7 +5,8 @@ real wire message), the constructor/creator log, and the deterministic-scheduler
 
 A *history* is   {"classes": [[mode, creator, truth, eq], ...], "nconn": n, "path": "direct"|"request",
                   "events": [["O", c, keep] | ["C", c, k, outcome] | ["X", c]]}
-  mode    single | session | percall | invalid | default (not decorated: `register` supplies the default)
+  mode    single | session | percall | invalid | default (not decorated: `register` supplies the default);
+          a suffix "+sub" = the decorated class is a base class, what is registered and served is an undecorated subclass
   creator none | callable[:shape] | falsy    (falsy = a callable object whose truth value is False;
           shape = how the creator can be called: arg (default, needs the class) | default (clazz=None) | varargs (*args) |
           partial (functools.partial) | class (the creator is itself a class) — all but `arg` also work with NO argument)
@@ -15,6 +16,7 @@ A *history* is   {"classes": [[mode, creator, truth, eq], ...], "nconn": n, "pat
           what the constructor / creator does IF it is run for this call: ok / returns a foreign object / raises ArithmeticError /
           raises a TypeError from its own body on every run / raises that TypeError on its FIRST run of this call only (a second
           run — which correct code never makes — would succeed with (t, e)).  te and te1 are `raises` for the model.
+Optional "bad_shutdown": [c, ...] — connections whose socket fails in shutdown() (peer reset) when they are closed.
 Several daemons: optional "ndaemon": m (connection c belongs to daemon c % m; every daemon serves the SAME class objects) and
 events ["D", d] = daemon d is shut down and a new Daemon object takes its place (its connections are gone with it).
 `flatten` renames (daemon, generation, class) and (connection, generation) to the plain class / connection numbers of a
@@ -74,7 +76,8 @@ def flatten(hist):
 class FakeSock:
     """in-memory socket: delivers `inbuf`, collects what is sent"""
 
-    def __init__(self, inbuf=b""):
+    def __init__(self, inbuf=b"", fail_shutdown=False):
+        self.fail_shutdown = fail_shutdown
         self.inbuf = bytes(inbuf)
         self.pos = 0
         self.out = bytearray()
@@ -106,7 +109,8 @@ class FakeSock:
         return ("fake", 0)
 
     def shutdown(self, how):
-        pass
+        if self.fail_shutdown:
+            raise OSError(107, "Transport endpoint is not connected")
 
     def close(self):
         self.closed += 1
@@ -299,11 +303,15 @@ class World:
                 cr = FalsyCreator(world, k)
             else:
                 cr = None
+            sub = mode.endswith("+sub")
+            mode = mode.split("+")[0]
             if mode != "default":
                 real_mode = mode if mode != "invalid" else "session"
                 cls = server.behavior(instance_mode=real_mode, instance_creator=cr)(cls)
                 if mode == "invalid":
                     cls._pyroInstancing = ("weird", cr)       # by hand: the decorator refuses it
+                if sub:
+                    cls = type("Sub%d" % k, (cls,), {})       # inherits its instancing from the decorated base
             out.append(cls)
         self.classes = out
         self.specs = [list(s) for s in specs]
@@ -414,15 +422,18 @@ class HistoryRun:
 
     def _register_defaults(self, daemons):
         for k, s in enumerate(self.hist["classes"]):
-            if s[0] == "default":
+            if s[0] == "default" or s[0].endswith("+sub"):
                 for d in daemons:
                     self.world.register(k, d)      # `register` is what gives an undecorated class its instancing
 
     def conn(self, c):
         fc = self.flat["conn_id"][(c, self.gen[c % self.m])]
         if fc not in self.conns:
-            self.conns[fc] = self.sc(FakeSock(), keep_open=False)
+            self.conns[fc] = self.sc(self.sock(c), keep_open=False)
         return self.conns[fc]
+
+    def sock(self, c):
+        return FakeSock(fail_shutdown=c in self.hist.get("bad_shutdown", ()))
 
     def run(self):
         w = self.world
@@ -436,7 +447,7 @@ class HistoryRun:
                 self._register_defaults([d])
             elif ev[0] == "O":
                 fc = self.flat["conn_id"][(ev[1], self.gen[ev[1] % self.m])]
-                self.conns[fc] = self.sc(FakeSock(), keep_open=bool(ev[2]))
+                self.conns[fc] = self.sc(self.sock(ev[1]), keep_open=bool(ev[2]))
                 self.obs.append(("-",))
             elif ev[0] == "X":
                 self.conn(ev[1]).close()
@@ -506,6 +517,7 @@ def hist_line(hist):
         hist = flatten(hist)
     toks = ["hist", str(len(hist["classes"]))]
     for mode, creator, truth, eq in hist["classes"]:
+        mode = mode.split("+")[0]
         toks += [MODEL_MODE.get(mode, mode), "none" if mode == "default" else base_creator(creator)]
     toks += [str(hist["nconn"]), str(len(hist["events"]))]
     for ev in hist["events"]:
@@ -546,7 +558,7 @@ def judge_history(hist, obs):
                     del sess[key]
             continue
         _, c, k, outcome = ev
-        mode, creator = classes[k][0], base_creator(classes[k][1])
+        mode, creator = classes[k][0].split("+")[0], base_creator(classes[k][1])
         if mode == "default":
             mode, creator = "session", "none"
         dd, dg, dk = cls_info[k]
